@@ -4722,18 +4722,19 @@ class Daemon(metaclass=JSONRPCServerType):
         """
         wallet = self.wallet_manager.get_wallet_or_default(wallet_id)
         accounts = [wallet.get_account_or_error(account_id)] if account_id else wallet.accounts
-        # choose + reserve under the same lock as every other transaction build (as Account.fund does)
-        async with self.ledger._utxo_reservation_lock:  # pylint: disable=protected-access
-            txos = await self.ledger.get_txos(
-                wallet=wallet, accounts=accounts, read_only=True,
-                no_tx=True, no_channel_info=True,
-                **self._constrain_txo_from_kwargs(
-                    {}, is_not_spent=True, is_my_output=True, **kwargs
-                )
-            )
-            await self.ledger.reserve_outputs(txos)
-        txs, held = [], []
+        txos, txs, held = [], [], []
         try:
+            # choose + reserve under the same lock as every other transaction build (as Account.fund does); inside
+            # the try: the writer thread commits the reservation even if this call is cancelled while it waits
+            async with self.ledger._utxo_reservation_lock:  # pylint: disable=protected-access
+                txos = await self.ledger.get_txos(
+                    wallet=wallet, accounts=accounts, read_only=True,
+                    no_tx=True, no_channel_info=True,
+                    **self._constrain_txo_from_kwargs(
+                        {}, is_not_spent=True, is_my_output=True, **kwargs
+                    )
+                )
+                await self.ledger.reserve_outputs(txos)
             while txos:
                 held.append(
                     await Transaction.create(
